@@ -6,30 +6,156 @@ import Abyss.Hash
 namespace Abyss
 open Vu64
 
-theorem Vu64.encodedLen_pos (v : Nat) : 1 ≤ encodedLen v := by sorry
-theorem Vu64.encodedLen_le (v : Nat) : encodedLen v ≤ 9 := by sorry
-theorem Vu64.leBytes_length (v k : Nat) : (leBytes v k).length = k := by sorry
-theorem Vu64.leBytes_lt (v k : Nat) : ∀ b ∈ leBytes v k, b < 256 := by sorry
-theorem Vu64.ofLeBytes_leBytes (v k : Nat) : ofLeBytes (leBytes v k) = v % 256 ^ k := by sorry
-theorem Vu64.encode_length (v : Nat) : (encode v).length = encodedLen v := by sorry
-theorem Vu64.encode_lt (v : Nat) (h : v < 2^64) : ∀ b ∈ encode v, b < 256 := by sorry
+theorem Vu64.encodedLen_pos (v : Nat) : 1 ≤ encodedLen v := by
+  unfold encodedLen; repeat' split
+  all_goals omega
+theorem Vu64.encodedLen_le (v : Nat) : encodedLen v ≤ 9 := by
+  unfold encodedLen; repeat' split
+  all_goals omega
+theorem Vu64.leBytes_length (v k : Nat) : (leBytes v k).length = k := by
+  induction k generalizing v with
+  | zero => rfl
+  | succ k ih => simp [leBytes, ih]
+theorem Vu64.leBytes_lt (v k : Nat) : ∀ b ∈ leBytes v k, b < 256 := by
+  induction k generalizing v with
+  | zero => intro b hb; simp [leBytes] at hb
+  | succ k ih =>
+    intro b hb
+    simp only [leBytes, List.mem_cons] at hb
+    rcases hb with hb | hb
+    · omega
+    · exact ih _ b hb
+theorem Vu64.ofLeBytes_leBytes (v k : Nat) : ofLeBytes (leBytes v k) = v % 256 ^ k := by
+  induction k generalizing v with
+  | zero => simp [leBytes, ofLeBytes, Nat.mod_one]
+  | succ k ih =>
+    simp only [leBytes, ofLeBytes, ih]
+    rw [Nat.pow_succ', Nat.mod_mul]
+
+/-- the nine ranges of `encodedLen` -/
+theorem Vu64.encodedLen_cases (v : Nat) :
+    (encodedLen v = 1 ∧ v < 2^7) ∨ (encodedLen v = 2 ∧ 2^7 ≤ v ∧ v < 2^14) ∨
+    (encodedLen v = 3 ∧ 2^14 ≤ v ∧ v < 2^21) ∨ (encodedLen v = 4 ∧ 2^21 ≤ v ∧ v < 2^28) ∨
+    (encodedLen v = 5 ∧ 2^28 ≤ v ∧ v < 2^35) ∨ (encodedLen v = 6 ∧ 2^35 ≤ v ∧ v < 2^42) ∨
+    (encodedLen v = 7 ∧ 2^42 ≤ v ∧ v < 2^49) ∨ (encodedLen v = 8 ∧ 2^49 ≤ v ∧ v < 2^56) ∨
+    (encodedLen v = 9 ∧ 2^56 ≤ v) := by
+  unfold encodedLen; repeat' split
+  all_goals omega
+
+theorem Vu64.encode_length (v : Nat) : (encode v).length = encodedLen v := by
+  have h1 := encodedLen_pos v
+  have h9 := encodedLen_le v
+  unfold encode
+  simp only
+  split
+  · simp_all
+  · split
+    · simp [leBytes_length]; omega
+    · split
+      · simp [leBytes_length]; omega
+      · simp [leBytes_length]; omega
+
+theorem Vu64.encode_lt (v : Nat) (h : v < 2^64) : ∀ b ∈ encode v, b < 256 := by
+  intro b hb
+  unfold encode at hb
+  simp only at hb
+  rcases encodedLen_cases v with hc | hc | hc | hc | hc | hc | hc | hc | hc
+  all_goals
+    obtain ⟨hL, hr⟩ := hc
+    simp [hL, prefixOnes] at hb
+    first
+      | (rcases hb with hb | hb
+         · omega
+         · exact leBytes_lt _ _ b hb)
+      | omega
+
+/-- decoding a first byte that announces `k` following bytes, followed by `k` little-endian bytes -/
+theorem Vu64.decode_cons_leBytes (b x k : Nat) (r : List Nat) (hd : decodedLen b = k + 1) :
+    decode (b :: (leBytes x k ++ r)) =
+      some ((if k + 1 = 1 then b
+             else if k + 1 ≤ 7 then (x % 256 ^ k) * 2^(8-(k+1)) + b % 2^(8-(k+1))
+             else x % 256 ^ k), r) := by
+  unfold decode
+  simp only [hd, Nat.add_sub_cancel, List.length_append, leBytes_length]
+  rw [if_neg (by omega), List.take_left' (leBytes_length x k), List.drop_left' (leBytes_length x k),
+    ofLeBytes_leBytes]
+
+theorem Vu64.decodedLen_cases (b : Nat) :
+    (decodedLen b = 1 ∧ b < 128) ∨ (decodedLen b = 2 ∧ 128 ≤ b ∧ b < 192) ∨
+    (decodedLen b = 3 ∧ 192 ≤ b ∧ b < 224) ∨ (decodedLen b = 4 ∧ 224 ≤ b ∧ b < 240) ∨
+    (decodedLen b = 5 ∧ 240 ≤ b ∧ b < 248) ∨ (decodedLen b = 6 ∧ 248 ≤ b ∧ b < 252) ∨
+    (decodedLen b = 7 ∧ 252 ≤ b ∧ b < 254) ∨ (decodedLen b = 8 ∧ b = 254) ∨
+    (decodedLen b = 9 ∧ 255 ≤ b) := by
+  unfold decodedLen; repeat' split
+  all_goals omega
+
 /-- round trip, with arbitrary bytes following -/
 theorem Vu64.decode_encode (v : Nat) (h : v < 2^64) (r : List Nat) :
-    decode (encode v ++ r) = some (v, r) := by sorry
-theorem Vu64.encode_inj (a b : Nat) (ha : a < 2^64) (hb : b < 2^64) (h : encode a = encode b) : a = b := by sorry
+    decode (encode v ++ r) = some (v, r) := by
+  rcases encodedLen_cases v with hc | hc | hc | hc | hc | hc | hc | hc | hc
+  · obtain ⟨hL, hr⟩ := hc
+    have he : encode v = v :: leBytes 0 0 := by simp [encode, hL, leBytes]
+    have hd : decodedLen v = 0 + 1 := by
+      have := decodedLen_cases v; omega
+    rw [he, List.cons_append, decode_cons_leBytes _ _ _ _ hd]
+    simp
+  all_goals
+    obtain ⟨hL, hr⟩ := hc
+    have he : encode v = (if encodedLen v ≤ 7 then
+          (prefixOnes (encodedLen v) + v % 2^(8-encodedLen v)) ::
+            leBytes (v / 2^(8-encodedLen v)) (encodedLen v - 1)
+        else if encodedLen v = 8 then 254 :: leBytes v 7 else 255 :: leBytes v 8) := by
+      simp [encode, hL]
+    rw [hL] at he
+    simp only [prefixOnes, Nat.reducePow, Nat.reduceSub, Nat.reduceLeDiff, Nat.reduceEqDiff,
+      ↓reduceIte] at he
+    rw [he, List.cons_append, decode_cons_leBytes]
+    · simp only [Nat.reducePow, Nat.reduceSub, Nat.reduceLeDiff, Nat.reduceEqDiff, Nat.reduceAdd,
+        ↓reduceIte] at hr ⊢
+      congr 2
+      omega
+    · unfold decodedLen; repeat' split
+      all_goals omega
+theorem Vu64.encode_inj (a b : Nat) (ha : a < 2^64) (hb : b < 2^64) (h : encode a = encode b) : a = b := by
+  have h1 := decode_encode a ha []
+  have h2 := decode_encode b hb []
+  rw [h, h2] at h1
+  simp at h1
+  exact h1.symm
 
-theorem u64_roundtrip (x : Nat) (h : x < 2^64) : u64OfKey (u64Key x) = x := by sorry
-theorem u64Key_inj (a b : Nat) (ha : a < 2^64) (hb : b < 2^64) (h : u64Key a = u64Key b) : a = b := by sorry
-theorem i64_roundtrip (x : Int) (h1 : -2^63 ≤ x) (h2 : x < 2^63) : i64OfKey (i64Key x) = x := by sorry
+theorem u64_roundtrip (x : Nat) (h : x < 2^64) : u64OfKey (u64Key x) = x := by
+  unfold u64OfKey u64Key
+  rw [List.take_of_length_le (by rw [leBytes_length]; exact Nat.le_refl _), ofLeBytes_leBytes]
+  exact Nat.mod_eq_of_lt (by simpa using h)
+theorem u64Key_inj (a b : Nat) (ha : a < 2^64) (hb : b < 2^64) (h : u64Key a = u64Key b) : a = b := by
+  rw [← u64_roundtrip a ha, ← u64_roundtrip b hb, h]
+theorem i64_roundtrip (x : Int) (h1 : -2^63 ≤ x) (h2 : x < 2^63) : i64OfKey (i64Key x) = x := by
+  unfold i64OfKey i64Key
+  simp only
+  rw [List.take_of_length_le (by rw [leBytes_length]; exact Nat.le_refl _), ofLeBytes_leBytes]
+  simp only [Nat.reducePow, Int.reducePow] at *
+  split <;> omega
 theorem i64Key_inj (a b : Int) (ha1 : -2^63 ≤ a) (ha2 : a < 2^63) (hb1 : -2^63 ≤ b) (hb2 : b < 2^63)
-    (h : i64Key a = i64Key b) : a = b := by sorry
-theorem vu64_roundtrip (x : Nat) (h : x < 2^64) : vu64OfKey (vu64Key x) = some x := by sorry
-theorem vu64Key_inj (a b : Nat) (ha : a < 2^64) (hb : b < 2^64) (h : vu64Key a = vu64Key b) : a = b := by sorry
+    (h : i64Key a = i64Key b) : a = b := by
+  rw [← i64_roundtrip a ha1 ha2, ← i64_roundtrip b hb1 hb2, h]
+theorem vu64_roundtrip (x : Nat) (h : x < 2^64) : vu64OfKey (vu64Key x) = some x := by
+  unfold vu64OfKey vu64Key
+  have := decode_encode x h []
+  rw [List.append_nil] at this
+  rw [this]; rfl
+theorem vu64Key_inj (a b : Nat) (ha : a < 2^64) (hb : b < 2^64) (h : vu64Key a = vu64Key b) : a = b :=
+  encode_inj a b ha hb h
 /-- the stored-key comparison of `DbVu64` decides equality of the integers -/
 theorem cmpKey_vu64 (a b : Nat) (ha : a < 2^64) (hb : b < 2^64) :
-    cmpKey .vu64 (vu64Key a) (vu64Key b) = some (decide (a = b)) := by sorry
+    cmpKey .vu64 (vu64Key a) (vu64Key b) = some (decide (a = b)) := by
+  have h1 := decode_encode a ha []
+  have h2 := decode_encode b hb []
+  rw [List.append_nil] at h1 h2
+  unfold cmpKey vu64Key
+  simp only [h1, h2]
 /-- the stored-key comparison of the other key types decides equality of the bytes -/
 theorem cmpKey_bytes (kt : KeyType) (hk : kt ≠ .vu64) (a b : List Nat) :
-    cmpKey kt a b = some (decide (a = b)) := by sorry
+    cmpKey kt a b = some (decide (a = b)) := by
+  cases kt <;> first | rfl | exact absurd rfl hk
 
 end Abyss
